@@ -23,12 +23,85 @@ pub mod std {
     pub mod thread {
         pub use ::std::thread::*;
 
-        use crate::{SimJoin, current, sim_join, sim_spawn};
+        use crate::{SimJoin, current as sim_current, sim_join, sim_spawn};
+
+        /// `std::thread::Thread`: a handle to a real thread or to a simulated task. Only what
+        /// `park`/`unpark` hand-shakes need is modelled (`unpark`, `id`, `name`).
+        #[derive(Clone)]
+        pub struct Thread {
+            real: Option<::std::thread::Thread>,
+            sim: Option<(::std::sync::Arc<crate::Shared>, crate::TaskId)>,
+        }
+
+        impl ::std::fmt::Debug for Thread {
+            fn fmt(&self, f: &mut ::std::fmt::Formatter<'_>) -> ::std::fmt::Result {
+                match (&self.real, &self.sim) {
+                    (_, Some((_, t))) => write!(f, "Thread(simulated task {})", t),
+                    (Some(r), None) => r.fmt(f),
+                    (None, None) => f.write_str("Thread(?)"),
+                }
+            }
+        }
+
+        impl Thread {
+            pub fn unpark(&self) {
+                if let (Some((sh, target)), Some((sh2, me))) = (&self.sim, sim_current()) {
+                    if ::std::sync::Arc::ptr_eq(sh, &sh2) {
+                        crate::sim_unpark(sh, me, *target);
+                        return;
+                    }
+                }
+                if let Some(r) = &self.real {
+                    r.unpark()
+                }
+            }
+            /// (identifies real threads only; simulated tasks that were spawned but have not
+            /// started yet have no real thread to ask)
+            pub fn id(&self) -> ::std::thread::ThreadId {
+                match &self.real {
+                    Some(r) => r.id(),
+                    None => ::std::thread::current().id(),
+                }
+            }
+            pub fn name(&self) -> Option<&str> {
+                self.real.as_ref().and_then(|r| r.name())
+            }
+        }
+
+        /// `std::thread::current`
+        pub fn current() -> Thread {
+            Thread { real: Some(::std::thread::current()), sim: sim_current() }
+        }
+
+        /// `std::thread::park`: inside a simulation a scheduling point that waits for the token.
+        pub fn park() {
+            match sim_current() {
+                Some((sh, me)) => crate::sim_park(&sh, me, None),
+                None => ::std::thread::park(),
+            }
+        }
+
+        pub fn park_timeout(d: ::std::time::Duration) {
+            match sim_current() {
+                Some((sh, me)) => crate::sim_park(&sh, me, Some(d.as_nanos().min(u128::from(u64::MAX)) as u64)),
+                None => ::std::thread::park_timeout(d),
+            }
+        }
 
         /// `std::thread::JoinHandle` or the handle of a simulated task.
         pub enum JoinHandle<T> {
-            Real(::std::thread::JoinHandle<T>),
-            Sim(SimJoin<T>),
+            Real(::std::thread::JoinHandle<T>, Thread),
+            Sim(SimJoin<T>, Thread),
+        }
+
+        fn real_handle<T>(h: ::std::thread::JoinHandle<T>) -> JoinHandle<T> {
+            let t = Thread { real: Some(h.thread().clone()), sim: None };
+            JoinHandle::Real(h, t)
+        }
+
+        fn sim_handle<T>(j: SimJoin<T>) -> JoinHandle<T> {
+            let t = Thread { real: None, sim: Some((j.sh.clone(), j.target)) };
+            JoinHandle::Sim(j, t)
         }
 
         impl<T> ::std::fmt::Debug for JoinHandle<T> {
@@ -40,14 +113,19 @@ pub mod std {
         impl<T> JoinHandle<T> {
             pub fn join(self) -> ::std::thread::Result<T> {
                 match self {
-                    JoinHandle::Real(h) => h.join(),
-                    JoinHandle::Sim(j) => sim_join(j),
+                    JoinHandle::Real(h, _) => h.join(),
+                    JoinHandle::Sim(j, _) => sim_join(j),
                 }
             }
             pub fn is_finished(&self) -> bool {
                 match self {
-                    JoinHandle::Real(h) => h.is_finished(),
-                    JoinHandle::Sim(j) => j.is_finished(),
+                    JoinHandle::Real(h, _) => h.is_finished(),
+                    JoinHandle::Sim(j, _) => j.is_finished(),
+                }
+            }
+            pub fn thread(&self) -> &Thread {
+                match self {
+                    JoinHandle::Real(_, t) | JoinHandle::Sim(_, t) => t,
                 }
             }
         }
@@ -57,9 +135,9 @@ pub mod std {
             F: FnOnce() -> T + Send + 'static,
             T: Send + 'static,
         {
-            match current() {
-                Some((sh, me)) => JoinHandle::Sim(sim_spawn(&sh, me, f)),
-                None => JoinHandle::Real(::std::thread::spawn(f)),
+            match sim_current() {
+                Some((sh, me)) => sim_handle(sim_spawn(&sh, me, f)),
+                None => real_handle(::std::thread::spawn(f)),
             }
         }
 
@@ -87,8 +165,8 @@ pub mod std {
                 F: FnOnce() -> T + Send + 'static,
                 T: Send + 'static,
             {
-                match current() {
-                    Some((sh, me)) => Ok(JoinHandle::Sim(sim_spawn(&sh, me, f))),
+                match sim_current() {
+                    Some((sh, me)) => Ok(sim_handle(sim_spawn(&sh, me, f))),
                     None => {
                         let mut b = ::std::thread::Builder::new();
                         if let Some(n) = self.name {
@@ -97,7 +175,7 @@ pub mod std {
                         if let Some(s) = self.stack_size {
                             b = b.stack_size(s);
                         }
-                        b.spawn(f).map(JoinHandle::Real)
+                        b.spawn(f).map(real_handle)
                     }
                 }
             }
@@ -111,21 +189,26 @@ pub mod std {
         }
 
         pub enum ScopedJoinHandle<'scope, T> {
-            Real(::std::thread::ScopedJoinHandle<'scope, T>),
-            Sim(SimJoin<T>),
+            Real(::std::thread::ScopedJoinHandle<'scope, T>, Thread),
+            Sim(SimJoin<T>, Thread),
         }
 
         impl<T> ScopedJoinHandle<'_, T> {
             pub fn join(self) -> ::std::thread::Result<T> {
                 match self {
-                    ScopedJoinHandle::Real(h) => h.join(),
-                    ScopedJoinHandle::Sim(j) => sim_join(j),
+                    ScopedJoinHandle::Real(h, _) => h.join(),
+                    ScopedJoinHandle::Sim(j, _) => sim_join(j),
                 }
             }
             pub fn is_finished(&self) -> bool {
                 match self {
-                    ScopedJoinHandle::Real(h) => h.is_finished(),
-                    ScopedJoinHandle::Sim(j) => j.is_finished(),
+                    ScopedJoinHandle::Real(h, _) => h.is_finished(),
+                    ScopedJoinHandle::Sim(j, _) => j.is_finished(),
+                }
+            }
+            pub fn thread(&self) -> &Thread {
+                match self {
+                    ScopedJoinHandle::Real(_, t) | ScopedJoinHandle::Sim(_, t) => t,
                 }
             }
         }
@@ -140,9 +223,14 @@ pub mod std {
                     Some((sh, me)) => {
                         let j = crate::sim_spawn_scoped(self.real, sh, *me, f);
                         self.spawned.lock().unwrap().push(j.target);
-                        ScopedJoinHandle::Sim(j)
+                        let t = Thread { real: None, sim: Some((j.sh.clone(), j.target)) };
+                        ScopedJoinHandle::Sim(j, t)
                     }
-                    None => ScopedJoinHandle::Real(self.real.spawn(f)),
+                    None => {
+                        let h = self.real.spawn(f);
+                        let t = Thread { real: Some(h.thread().clone()), sim: None };
+                        ScopedJoinHandle::Real(h, t)
+                    }
                 }
             }
         }
@@ -152,7 +240,7 @@ pub mod std {
             F: for<'scope> FnOnce(&'scope Scope<'scope, 'env>) -> T,
         {
             ::std::thread::scope(|real| {
-                let sc = Scope { real, sim: current(), spawned: ::std::sync::Mutex::new(Vec::new()) };
+                let sc = Scope { real, sim: sim_current(), spawned: ::std::sync::Mutex::new(Vec::new()) };
                 // SAFETY of lifetimes: `sc` lives until the end of this closure, i.e. inside the
                 // real scope; the reference handed to `f` is shortened accordingly by transmute
                 // because a local cannot be borrowed for the whole of 'scope.
@@ -463,6 +551,46 @@ pub mod std {
         pub use ::std::sync::*;
 
         pub use super::super::locks::{Condvar, Mutex, MutexGuard, RwLock, RwLockReadGuard, RwLockWriteGuard};
+
+        /// `std::sync::Barrier` on top of the simulated Mutex and Condvar (the real one would
+        /// block for real with the baton in hand).
+        #[derive(Debug)]
+        pub struct Barrier {
+            state: Mutex<(usize, usize)>,
+            cv: Condvar,
+            n: usize,
+        }
+
+        #[derive(Debug)]
+        pub struct BarrierWaitResult(bool);
+
+        impl BarrierWaitResult {
+            pub fn is_leader(&self) -> bool {
+                self.0
+            }
+        }
+
+        impl Barrier {
+            pub fn new(n: usize) -> Barrier {
+                Barrier { state: Mutex::new((0, 0)), cv: Condvar::new(), n }
+            }
+            pub fn wait(&self) -> BarrierWaitResult {
+                let mut g = self.state.lock().unwrap_or_else(|p| p.into_inner());
+                let generation = g.1;
+                g.0 += 1;
+                if g.0 < self.n {
+                    while g.1 == generation {
+                        g = self.cv.wait(g).unwrap_or_else(|p| p.into_inner());
+                    }
+                    BarrierWaitResult(false)
+                } else {
+                    g.0 = 0;
+                    g.1 = g.1.wrapping_add(1);
+                    self.cv.notify_all();
+                    BarrierWaitResult(true)
+                }
+            }
+        }
 
         pub mod atomic {
             pub use ::std::sync::atomic::{Ordering, compiler_fence};
